@@ -32,6 +32,8 @@ func runC16(c *Ctx, pr *PropertyRun) {
 	pr.Trusted = append(pr.Trusted, "golang.org/x/tools/go/ssa v0.29.0")
 	c16Finite(c, pr)
 	c16Pairs(c, pr, "C16", nil)
+	// a decoded href is handed on as it is
+	urlParseRule(c, pr, "C16", nil)
 	utcRule(c, pr, "C16")
 	c16Reject(c, pr)
 }
@@ -249,6 +251,13 @@ func hasUse(us []calleeUse, name string) *calleeUse {
 // everyReturnFromQuoting: each string/[]byte result of fn (or of the library
 // function it delegates to) is the result of Sprintf / strconv.Quote*.
 func everyReturnFromQuoting(fn *ssa.Function, depth int) bool {
+	return everyReturnFrom(fn, []string{"fmt.Sprintf", "strconv.Quote", "strconv.QuoteToASCII", "strconv.AppendQuote", "strconv.AppendQuoteToASCII"}, depth)
+}
+
+// everyReturnFrom: the first result of every return of fn is (a conversion
+// of) the result of one of the named primitives, possibly through library
+// functions of which the same holds.
+func everyReturnFrom(fn *ssa.Function, prims []string, depth int) bool {
 	if fn == nil || len(fn.Blocks) == 0 || depth > 2 {
 		return false
 	}
@@ -262,12 +271,13 @@ func everyReturnFromQuoting(fn *ssa.Function, depth int) bool {
 				v = x.X
 				continue
 			case *ssa.Call:
-				switch calleeName(x.Common()) {
-				case "fmt.Sprintf", "strconv.Quote", "strconv.QuoteToASCII", "strconv.AppendQuote", "strconv.AppendQuoteToASCII":
-					return true
+				for _, pn := range prims {
+					if calleeName(x.Common()) == pn {
+						return true
+					}
 				}
 				if f := x.Common().StaticCallee(); f != nil && inLib(f) {
-					return everyReturnFromQuoting(f, depth+1)
+					return everyReturnFrom(f, prims, depth+1)
 				}
 			}
 			return false
@@ -382,6 +392,13 @@ func c16Pairs(c *Ctx, pr *PropertyRun, prop string, keep func(what string) bool)
 			// RFC 5545 §3.3.5 form 2 (date with UTC time): the layout is given by the RFC
 			ok = len(eu.consts) > 0 && len(du.consts) > 0 && eu.consts[0] == du.consts[0] && eu.consts[0] == "20060102T150405Z"
 			detail = fmt.Sprintf("layouts %q / %q (RFC 5545 form 2 is \"20060102T150405Z\")", eu.consts, du.consts)
+		}
+		// every text the href encoder returns is what URL.String made: a
+		// fast path that hands "plain" paths on verbatim must know exactly
+		// which characters URL.String escapes ('%' among them)
+		if ok && pa.what == "href" && !everyReturnFrom(enc, []string{pa.encCall}, 0) {
+			ok = false
+			detail += "; not every return of the encoder is the result of " + pa.encCall
 		}
 		// the decoder hands its input to the inverse primitive as it is: any
 		// transformation in between (trimming, case folding) makes texts the
